@@ -54,7 +54,7 @@ def contracts():
             // refused only if some limit had no room even over the larger window measured at entry:
             // requests are not withheld while every limit has room, whatever the period
             !r ==> exists|l: int| 0 <= l < self.lim().len() &&
-                newer(self.log(), old(w).clock - (#[trigger] self.lim()[l]).1).len() >= self.lim()[l].0, //@C09.ra_complete,C19.huge_period_does_not_block_forever
+                newer(self.log(), old(w).clock - (#[trigger] self.lim()[l]).1).len() >= self.lim()[l].0, //@C09.ra_complete,C19.huge_period_does_not_block_forever,C07.a_request_is_not_withheld_while_every_limit_has_room
 """, loops={1: """
     invariant w.admissions == old(w).admissions, w.net == old(w).net, w.fs == old(w).fs, w.clock >= old(w).clock, self.wf_limits(),
         forall|l: int| 0 <= l < iter.index@ ==>
@@ -72,7 +72,7 @@ def contracts():
                         lemma_filter_map(self.query_log@, p, inst_fn(), m);
                         assert(self.query_log@.filter(p).map_values(inst_fn()).len() == self.query_log@.filter(p).len());
                         if m < inst_floor() { lemma_all_newer(self.query_log@, m); }
-                        assert(nb_req == newer(self.log(), m).len()); //@C09.the_count_is_the_number_of_logged_requests_in_the_window,C19.the_count_is_the_number_of_logged_requests_in_the_window
+                        assert(nb_req == newer(self.log(), m).len()); //@C09.the_count_is_the_number_of_logged_requests_in_the_window,C19.the_count_is_the_number_of_logged_requests_in_the_window,C07.the_count_is_the_number_of_logged_requests_in_the_window
                         if nb_req >= *max_allowed {
                             lemma_newer_antitone(self.log(), old(w).clock - self.lim()[l].1, m);
                         }
